@@ -154,9 +154,11 @@ def expected(lib, queries):
             if p["simple"]:
                 for e, cen in zip(p["els"], q["centers"]):
                     spine = [(x / g, y / g) for x, y in cen["pts"]]
+                    ps = abs(p.get("prescale") or 1.0)      # a scaled path: widths follow if scale_width, extensions always
                     for off in offsets(p["rep"]):
-                        paths.append({"tag": e["tag"], "spine": [(x + off[0], y + off[1]) for x, y in spine], "base": spine, "off": off, "w": e["w"], "end": e["end"],
-                                      "ext": e["ext"], "props": canon_props(p["props"]), "tol": 0.5 + rep_tol(p["rep"])})
+                        paths.append({"tag": e["tag"], "spine": [(x + off[0], y + off[1]) for x, y in spine], "base": spine, "off": off,
+                                      "w": e["w"] * (ps if p["scale_width"] else 1.0), "end": e["end"],
+                                      "ext": [e["ext"][0] * ps, e["ext"][1] * ps], "props": canon_props(p["props"]), "tol": 0.5 + rep_tol(p["rep"])})
             else:
                 for op in q["result"]:
                     pts = dedupe_closed([(x / g, y / g) for x, y in op["pts"]])
